@@ -47,7 +47,8 @@ Shapes == <<
   [d |-> "small", t |-> <<F(<<2, 3>>), R(<<4>>), S(1), S(2)>>],                               \* 10
   [d |-> "tiny",  t |-> <<F(<<2, 4>>), R(<<3>>), S(1), R(<<5>>), O(<<6, 7>>), S(1), S(1)>>],  \* 11 two rules, outline in a rule
   [d |-> "micro", t |-> <<F(<<2, 3>>), S(2), S(2), F(<<5>>), O(<<6, 7>>), S(2), S(2)>>],      \* 12 2 features x 4 scenarios x 2 steps
-  [d |-> "tiny",  t |-> <<F(<<2>>), S(2), F(<<4>>), S(2)>>]                                   \* 13 2 features
+  [d |-> "tiny",  t |-> <<F(<<2>>), S(2), F(<<4>>), S(2)>>],                                     \* 13 2 features
+  [d |-> "small", t |-> <<F(<<2, 3, 4>>), S(1), O(<<>>), O(<<5>>), S(1)>>]                    \* 14 an outline without a single row
 >>
 
 \* ---------------------------------------------------------------- all status assignments of a shape
@@ -102,6 +103,6 @@ Hash == LET RECURSIVE h(_, _)
 Emit == OnModel(Hash % EmitMod = 0 =>
            PrintT(<<"CASE", ToJson([sh |-> x.sh, kind |-> M.kind, children |-> M.children, status |-> x.status, steps |-> x.steps])>>))
 
-QuickShapes == 1..6
-ThoroughShapes == 1..13
+QuickShapes == {1, 2, 4, 5, 6, 14}
+ThoroughShapes == 1..14
 =============================================================================
